@@ -19,8 +19,8 @@ from core import enc_bool, enc_opt, enc_str, enc_str_list
 PROPERTY = "C16"
 
 # CODE VARIANT FLAGS  (1 = the code as it stands today, 0 = the repaired code; see Model/Pretty.lean `Variant`)
-DROP_SUFFIX = 1  # F24: _Line.expand derives the closing line's suffix from the node instead of carrying its own
-ARRAY_LITERAL = 1  # F12: the empty form of array is the literal text "array({_object.typecode!r})"
+DROP_SUFFIX = 0  # F24: _Line.expand derives the closing line's suffix from the node instead of carrying its own
+ARRAY_LITERAL = 0  # F12: the empty form of array is the literal text "array({_object.typecode!r})"
 
 ARRAY_LITERAL_TEXT = "array({_object.typecode!r})"
 INDENTS = [4, 4, 1, 2, 0, 8]
@@ -477,7 +477,7 @@ def run(ctx):
     P = 14
     tasks = [("fixed", rng.getrandbits(32), quick, None)]
     tasks += [("exh", rng.getrandbits(32), quick, (k, P)) for k in range(P)]
-    tasks += [("rand", rng.getrandbits(32), quick, (150, 4 if quick else 6)) for _ in range(40 if quick else 700)]
+    tasks += [("rand", rng.getrandbits(32), quick, (150, 4 if quick else 6)) for _ in range(40 if quick else 560)]
     tasks += [("cyc", rng.getrandbits(32), quick, 100) for _ in range(3 if quick else 50)]
     tasks += [("synth", rng.getrandbits(32), quick, 450) for _ in range(8 if quick else 120)]
     tasks += [("glue", rng.getrandbits(32), quick, 150) for _ in range(1 if quick else 16)]
